@@ -10,7 +10,9 @@ RULE = (
     "occurs in no trace, traces whose spans carry differing workflow names, "
     "traces placed inside / outside / straddling / touching the buffered "
     "window; time_buffer in {0,1,2,5} minutes; drawn ingestion order and "
-    "batch size. Run: the real otel_to_pv(ingest_data=True) with only the "
+    "batch size; a third of the stores write the root's parent id as \"\"; a "
+    "third are filled by two runs against one sqlite file (window of a run = "
+    "what that run ingested, so traces of the earlier run may fall outside). Run: the real otel_to_pv(ingest_data=True) with only the "
     "data source replaced by the generated span list (so the real cleaning "
     "order and statements run), then the nodes table is read. Oracle: "
     "reference model (window from min start/max end of everything ingested, "
@@ -36,10 +38,19 @@ BASE = 1_700_000_000 * 10**9 + 123_000  # whole us, not a multiple of 256 ns: su
 #                                        values are not exact in a double
 
 
+def is_root(parent):
+    # OTLP/JSON exporters write "parentSpanId": "" for a root span; the
+    # tool stores that as NULL like a missing field
+    return parent is None or parent == ""
+
+
 def all_spans(case):
     out = []
-    for tr in case["traces"]:
+    empty = set(case.get("empty_roots") or [])
+    for ti, tr in enumerate(case["traces"]):
         for s in tr["spans"]:
+            if s[1] is None and ti in empty:
+                s = [s[0], ""] + list(s[2:])
             out.append(dict(event_id=s[0], parent_event_id=s[1],
                             event_type=s[2], job_name=s[3],
                             start_timestamp=BASE + s[4] * STEP,
@@ -72,10 +83,43 @@ def first_occurrences(spans):
     return out
 
 
+def deliveries(case):
+    """[(spans, buffer)] - one run, or two runs against one sqlite file (the
+    first `first` traces with buffer 0, then the others)."""
+    spans = all_spans(case)
+    k = case.get("first") or 0
+    if not k or k >= len(case["traces"]) or case.get("dups"):
+        return [(spans, case["buffer"])]
+    ids1 = {t["id"] for t in case["traces"][:k]}
+    d1 = [s for s in spans if s["job_id"] in ids1]
+    d2 = [s for s in spans if s["job_id"] not in ids1]
+    if min(s["start_timestamp"] for s in d1) >= \
+            max(s["end_timestamp"] for s in d1):
+        return [(spans, case["buffer"])]      # first run's window is empty
+    return [(d1, 0), (d2, case["buffer"])]
+
+
 def model(case):
-    spans = first_occurrences(all_spans(case))
-    lo = min(s["start_timestamp"] for s in spans) + case["buffer"] * MIN
-    hi = max(s["end_timestamp"] for s in spans) - case["buffer"] * MIN
+    """Reference model of the store after the last run."""
+    stored = []
+    keep = removed = None
+    all_removed = {}
+    for part, buffer in deliveries(case):
+        keep, removed = model_run(stored, part, buffer)
+        if keep is None:
+            return None, None
+        all_removed.update(removed)
+        stored = [s for ss in keep.values() for s in ss]
+    return keep, all_removed
+
+
+def model_run(stored, delivered, buffer):
+    """One run: `delivered` is ingested into a store holding `stored`; the
+    window is taken from what this run ingested."""
+    delivered = first_occurrences(delivered)
+    spans = stored + delivered
+    lo = min(s["start_timestamp"] for s in delivered) + buffer * MIN
+    hi = max(s["end_timestamp"] for s in delivered) - buffer * MIN
     if lo >= hi:
         return None, None
     ids = {s["event_id"] for s in spans}
@@ -85,7 +129,7 @@ def model(case):
     keep = {}
     removed = {}
     for tid, ss in by_trace.items():
-        dangling = any(s["parent_event_id"] is not None
+        dangling = any(not is_root(s["parent_event_id"])
                        and s["parent_event_id"] not in ids for s in ss)
         inside = any(lo <= s["start_timestamp"] <= hi
                      or lo <= s["end_timestamp"] <= hi for s in ss)
@@ -94,19 +138,21 @@ def model(case):
         elif not inside:
             removed[tid] = "window"
         else:
-            root = [s for s in ss if s["parent_event_id"] is None][0]
-            keep[tid] = [dict(s, job_name=root["job_name"]) for s in ss]
+            root = [s for s in ss if is_root(s["parent_event_id"])][0]
+            keep[tid] = [dict(s, job_name=root["job_name"],
+                              parent_event_id=s["parent_event_id"] or None)
+                         for s in ss]
     return keep, removed
 
 
-def run_pipeline(spans, buffer, batch):
+def run_pipeline(spans, buffer, batch, db_uri="sqlite:///:memory:"):
     """real otel_to_pv with the generated spans as data source; returns
     (nodes table, {job_id: [pv events]}, {job_id: name streamed under})."""
     from tel2puml.otel_to_pv.config import load_config_from_dict
     import tel2puml.otel_to_pv.otel_to_pv as o2p
     cfg = load_config_from_dict({
         "ingest_data": {"data_source": "json", "data_holder": "sql"},
-        "data_holders": {"sql": {"db_uri": "sqlite:///:memory:",
+        "data_holders": {"sql": {"db_uri": db_uri,
                                  "batch_size": batch, "time_buffer": buffer}},
         "data_sources": {"json": {"dirpath": "/", "filepath": None,
                                   "json_per_line": False,
@@ -158,8 +204,16 @@ def canon_job(evs):
 def check_case(case):
     spans = all_spans(case)
     keep, removed = model(case)
+    runs = deliveries(case)
     try:
-        nodes, jobs, names = run_pipeline(spans, case["buffer"], case["batch"])
+        if len(runs) == 1:
+            nodes, jobs, names = run_pipeline(spans, case["buffer"],
+                                              case["batch"])
+        else:
+            with store.TempDB() as db:
+                for part, buffer in runs:
+                    nodes, jobs, names = run_pipeline(part, buffer,
+                                                      case["batch"], db.uri)
     except ValueError as e:
         if keep is None:
             return
@@ -252,7 +306,17 @@ def classify(case):
             incons = True
     if incons:
         classes.append("inconsistent_names_kept")
-    spans = all_spans(case)
+    runs = deliveries(case)
+    spans = runs[-1][0]
+    if case.get("empty_roots"):
+        classes.append("root_parent_empty_string")
+    if len(runs) == 2:
+        classes.append("two_runs_one_store")
+        first_ids = {s["job_id"] for s in runs[0][0]}
+        if any(t in first_ids and why == "window"
+               and t in (model_run([], runs[0][0], 0)[0] or {})
+               for t, why in removed.items()):
+            classes.append("trace_of_earlier_run_outside_later_window")
     lo = min(s["start_timestamp"] for s in spans) + case["buffer"] * MIN
     hi = max(s["end_timestamp"] for s in spans) - case["buffer"] * MIN
     for tr in case["traces"]:
@@ -323,6 +387,12 @@ def case_strategy():
                 dups.append({"of": [ti, k], "parent": parent,
                              "after": draw(st.integers(0, 30))})
             case["dups"] = dups
+        elif nt >= 2 and draw(st.integers(0, 1)) == 0:
+            # two runs against one sqlite file: the first traces first
+            case["first"] = draw(st.integers(1, nt - 1))
+        if draw(st.integers(0, 2)) == 0:
+            case["empty_roots"] = sorted(draw(st.sets(
+                st.integers(0, nt - 1), min_size=1, max_size=nt)))
         return case
 
     return build()
@@ -354,6 +424,11 @@ def shrinker(case):
         c = dict(case)
         c.pop("order")
         yield c
+    for key in ("first", "empty_roots"):
+        if case.get(key):
+            c = dict(case)
+            c.pop(key)
+            yield c
 
 
 def plan(tier):
